@@ -151,16 +151,47 @@ func c08Judge(c c08Case) error {
 		for i := 1; i < 32; i++ {
 			other.Reg[i] = init.Reg[i]*3 + int32(i)
 		}
-		_ = sim.RunApp(c.Cfg, app, other, budget, nil)
-		_ = sim.RunApp(c.Cfg, app, init, budget, nil)
-		for _, v := range []string{"mvp6-1", "mvp6-2", "mvp6-3", "mvp7-0", "mvp7-1", "mvp8-0"} {
-			for par := 1; par <= 2; par++ {
-				cfg := sim.Config{Variant: v, Par: par}
-				fresh := digest(sim.Run(cfg, text, init, budget, nil))
-				if d := digest(sim.RunApp(cfg, app, init, budget, nil)); d != fresh {
-					return fmt.Errorf("%s: re-using a program parsed once for a chain of machines (first %s) gives %s, a freshly parsed program %s", cfg, c.Cfg, d, fresh)
+		judge := func(variants []string, after string) error {
+			for _, v := range variants {
+				for par := 1; par <= 2; par++ {
+					if par == 2 && !sim.IsMulti(v) {
+						continue
+					}
+					cfg := sim.Config{Variant: v, Par: par}
+					fresh := digest(sim.Run(cfg, text, init, budget, nil))
+					if d := digest(sim.RunApp(cfg, app, init, budget, nil)); d != fresh {
+						return fmt.Errorf("%s: re-using a program parsed once for a chain of machines (%s on %s) gives %s, a freshly parsed program %s", cfg, after, c.Cfg, d, fresh)
+					}
 				}
 			}
+			return nil
+		}
+		// the variants that never clear a forwarded operand themselves
+		plain := []string{"mvp1", "mvp2", "mvp3", "mvp4", "mvp5", "mvp6-0"}
+		if c.Case.Meta["faultprobe"] > 0 {
+			// the program holds "div zero, zero, s6": with s6 = 0 the first machine
+			// ends with the division-by-zero error while instructions are in flight
+			// (other memory bytes too, so that loaded values differ)
+			fault := init
+			fault.Mem = append([]int8(nil), init.Mem...)
+			for i := range fault.Mem {
+				fault.Mem[i] ^= int8(i*29 + 7)
+			}
+			fault.Reg[gen.RegProbe] = 0
+			_ = sim.RunApp(c.Cfg, app, fault, budget, nil)
+			if err := judge(plain, "after a run that ended with the division-by-zero error"); err != nil {
+				return err
+			}
+		}
+		// a run from another state: other paths, possibly an error, a crash or an
+		// exhausted budget
+		_ = sim.RunApp(c.Cfg, app, other, budget, nil)
+		if err := judge(plain, "after a run from another state"); err != nil {
+			return err
+		}
+		_ = sim.RunApp(c.Cfg, app, init, budget, nil)
+		if err := judge([]string{"mvp6-1", "mvp6-2", "mvp6-3", "mvp7-0", "mvp7-1", "mvp8-0"}, "after three runs"); err != nil {
+			return err
 		}
 	case "child":
 		d, err := childDigest(c)
@@ -240,6 +271,8 @@ func TestC08(t *testing.T) {
 	cfgs := sim.AllConfigs()
 	rapid.Check(t, func(rt *rapid.T) {
 		p := drawProfile(rt, []gen.Profile{gen.SHADOWSLOW, gen.PRESSURELOAD, gen.MEM, gen.MEMSAFE, gen.REG}, []int{35, 20, 20, 10, 15})
+		// half of the programs carry a fault probe (used by the chain relation)
+		p.FaultProbe = rapid.Bool().Draw(rt, "faultprobe")
 		c := gen.Program(rt, p)
 		r, ok := refRun(c)
 		if !ok {
